@@ -42,8 +42,11 @@ func main() {
 				}
 			}()
 			p.run(*tier, res)
+			runCanaries(res, propertyCanaries[*prop]...)
 		}()
 		os.Exit(core.Finish(*prop, *tier, seed, start, res, p.explanation, p.assumptions))
+	case "canary":
+		canaryAll()
 	case "dump":
 		// gverif dump <engine> : print all findings of an engine without triage
 		dump(os.Args[2:])
